@@ -61,6 +61,13 @@ pub struct HashSet<K> { x: core::marker::PhantomData<K> }
 impl<K> HashSet<K> {
     pub uninterp spec fn view(&self) -> Set<K>;
     #[verifier::external_body]
+    pub fn new() -> (r: Self)
+        ensures r@ == Set::<K>::empty(),
+    { unimplemented!() }
+    // `HashSet::from([x])`
+    #[verifier::external_body]
+    pub fn from(a: [K; 1]) -> (r: Self) { unimplemented!() }
+    #[verifier::external_body]
     pub fn contains(&self, k: &K) -> (r: bool)
         ensures r == self@.contains(*k),
     { unimplemented!() }
